@@ -53,6 +53,7 @@ type harnessSpec struct {
 	preemptionBound int
 	maximalProgress bool
 	frozenClock     bool
+	concreteClock   bool // time is a concrete counter (schedules matter, durations do not)
 	allowDeadlock   bool
 	maxTicks        int
 	maxPaths        int
